@@ -580,8 +580,8 @@ Proof.
   - intro H. exists b. split; [exact H|apply byte_eqb_refl].
 Qed.
 
-Lemma escape_cons hs esc b d :
-  escape hs esc (b :: d) = (if is_head hs b then esc ++ [b] else [b]) ++ escape hs esc d.
+Lemma escape_b_cons hs esc b d :
+  escape_b hs esc (b :: d) = (if is_head hs b then esc ++ [b] else [b]) ++ escape_b hs esc d.
 Proof. reflexivity. Qed.
 
 Lemma decode_rune_ascii b t : ascii_byte b -> decode_rune (b :: t) = (b2n b, 1).
@@ -609,13 +609,46 @@ Proof.
   rewrite skipn_app_exact. reflexivity.
 Qed.
 
-Lemma unescape_loop_escape hs esc : esc <> [] -> Forall ascii_byte hs -> rel_ok hs esc ->
-  forall d k, length (escape hs esc d) < k -> unescape_loop k (escape hs esc d) esc = Ok d.
+(* an escape sequence followed by a decodable rune w: w is copied, the sequence dropped *)
+Lemma unescape_loop_esc_unit esc w t k rw :
+  decode_rune (w ++ t) = (rw, length w) -> rw <> RuneError ->
+  unescape_loop (S k) (esc ++ w ++ t) esc = bind (unescape_loop k t esc) (fun o => Ok (w ++ o)).
+Proof.
+  intros Hd Hrw. cbn [unescape_loop]. rewrite bindex_prefix by apply has_prefix_app.
+  rewrite slice_ok by lia. cbn [bind].
+  rewrite slice_from_ok by (rewrite app_length; lia). cbn [bind].
+  rewrite Nat.add_0_l, skipn_app_exact, Hd.
+  assert (N.eqb rw RuneError = false) as -> by (apply N.eqb_neq; exact Hrw).
+  rewrite slice_ok by (rewrite ?app_length; lia). cbn [bind].
+  rewrite slice_from_ok by (rewrite !app_length; lia). cbn [bind].
+  replace (length esc + length w - length esc) with (length w) by lia.
+  cbn [Nat.sub firstn app]. rewrite skipn_app_exact.
+  assert (firstn (length w) (w ++ t) = w) as ->.
+  { rewrite firstn_app, Nat.sub_diag, firstn_all. cbn [firstn]. apply app_nil_r. }
+  replace (length esc + length w) with (length (esc ++ w)) by apply app_length.
+  rewrite (app_assoc esc w t), skipn_app_exact. reflexivity.
+Qed.
+
+(* bytes none of which starts an escape sequence are copied *)
+Lemma unescape_loop_plain esc t k : esc <> [] -> forall p,
+  (forall p1 p2, p = p1 ++ p2 -> p2 <> [] -> has_prefix (p2 ++ t) esc = false) ->
+  unescape_loop (S k) (p ++ t) esc = bind (unescape_loop (S k) t esc) (fun o => Ok (p ++ o)).
+Proof.
+  intros He. induction p as [|b p IH]; intro Hp.
+  - cbn [app]. destruct (unescape_loop (S k) t esc); reflexivity.
+  - cbn [app]. rewrite unescape_loop_cons; [|exact He|apply (Hp [] (b :: p)); [reflexivity|discriminate]].
+    rewrite IH.
+    + destruct (unescape_loop (S k) t esc); reflexivity.
+    + intros p1 p2 Hp12 Hne. apply (Hp (b :: p1) p2); [rewrite Hp12; reflexivity|exact Hne].
+Qed.
+
+Lemma unescape_loop_escape_b hs esc : esc <> [] -> Forall ascii_byte hs -> rel_ok hs esc ->
+  forall d k, length (escape_b hs esc d) < k -> unescape_loop k (escape_b hs esc d) esc = Ok d.
 Proof.
   intros He Hascii Hrel.
   induction d as [|b d IH]; intros k Hk.
   - destruct k; [simpl in Hk; lia|]. destruct esc; [congruence|reflexivity].
-  - rewrite escape_cons in *. destruct (is_head hs b) eqn:Eb.
+  - rewrite escape_b_cons in *. destruct (is_head hs b) eqn:Eb.
     + destruct k as [|k]; [lia|]. rewrite <- app_assoc in *. cbn [app] in *.
       assert (ascii_byte b) as Hb.
       { apply is_head_In in Eb. rewrite Forall_forall in Hascii. apply Hascii. exact Eb. }
@@ -632,13 +665,13 @@ Qed.
 (* unescape_escape: whatever bytes d consists of, unescaping its escaped form gives d back (in
    particular the truncating branch of ByteUnescape -- release sequence last, or followed by an
    undecodable byte or U+FFFD -- is never reached on encoder output). *)
-Lemma unescape_escape hs esc d : Forall ascii_byte hs -> rel_ok hs esc ->
-  unescape (escape hs esc d) esc = Ok d.
+Lemma unescape_escape_b hs esc d : Forall ascii_byte hs -> rel_ok hs esc ->
+  unescape (escape_b hs esc d) esc = Ok d.
 Proof.
   intros Ha Hr. unfold unescape. destruct esc as [|e0 er].
   - cbn [is_empty]. f_equal. induction d as [|b d IH]; [reflexivity|].
-    rewrite escape_cons, IH. destruct (is_head hs b); reflexivity.
-  - cbn [is_empty]. apply (unescape_loop_escape hs (e0 :: er)); [discriminate|exact Ha|exact Hr|lia].
+    rewrite escape_b_cons, IH. destruct (is_head hs b); reflexivity.
+  - cbn [is_empty]. apply (unescape_loop_escape_b hs (e0 :: er)); [discriminate|exact Ha|exact Hr|lia].
 Qed.
 
 (* ---- runeCountAndHasOnlyCRLF: a decoded rune below 0x40 is a single ASCII byte --------------------- *)
